@@ -500,10 +500,35 @@ inductive Result (α : Type) where
   | trace (t : List α)
   deriving Repr, DecidableEq
 
+/-- what `open(self.filepath, "rb")` raises when the file has gone since the response was constructed -/
+def fileGoneKind : String := "FileNotFoundError"
+
+/-- does the call open the file?  Every handler does, straight after its start event - except for a HEAD
+request and on the range-error path, which never touch the file. -/
+def opensFile (i : Iface) (r : Recipe) (st : Hdrs) : Bool :=
+  match r.kind with
+  | .file f => !f.headOnly && (match plan i r st with | .ok p => p.mapping.isSome | .error _ => false)
+  | _ => false
+
+/-- the "producer" of a file answer is the file: the fault "the producer raises" is the file that cannot be
+opened any more -/
+def fileGone (fault : Fault) (i : Iface) (r : Recipe) (st : Hdrs) : Bool :=
+  (match fault with | .producer _ => true | _ => false) && opensFile i r st
+
+/-- the conversation when the file cannot be opened: what came before the `open` (the start), then the error -/
+def goneW : List WEv → List WEv
+  | [] => []
+  | .raise k :: rest => .raise k :: rest        -- the call failed before it got to the file
+  | e :: _ => [e, .raise fileGoneKind]
+def goneA : List AEv → List AEv
+  | [] => []
+  | .raise k :: rest => .raise k :: rest
+  | e :: _ => [e, .raise fileGoneKind]
+
 def wsgiRun (fault : Fault) (r : Recipe) : Result WEv :=
   match construct .wsgi r with
   | .error k => .ctor k
-  | .ok st => .trace (wsgiCall fault r st)
+  | .ok st => .trace (if fileGone fault .wsgi r st then goneW (wsgiCall .none r st) else wsgiCall fault r st)
 
 /-! ### ASGI -/
 
@@ -597,7 +622,7 @@ def asgiCall (fault : Fault) (r : Recipe) (st : Hdrs) : List AEv :=
 def asgiRun (fault : Fault) (r : Recipe) : Result AEv :=
   match construct .asgi r with
   | .error k => .ctor k
-  | .ok st => .trace (asgiCall fault r st)
+  | .ok st => .trace (if fileGone fault .asgi r st then goneA (asgiCall .none r st) else asgiCall fault r st)
 
 /-! ### Line protocol
 
